@@ -22,6 +22,7 @@ import PS.Proofs.Enum.Heapq
 import PS.Proofs.Enum.HeapSearch
 import PS.Proofs.Enum.HSSoundInit
 import PS.Proofs.Enum.HSPrio
+import PS.Proofs.Enum.HSNodupRun
 namespace PS.C02HS
 open PS PS.G
 
@@ -176,5 +177,42 @@ example : prioSpec cE (.node cPlus [.node cX [], .node cOne []]) cG.start = some
 example : (computePrio cE [((.node cX [], (cInt, (1, ()))), 3/4), ((.node cOne [], (cInt, (1, ()))), 1/4)] cG.start
     (.node cPlus [.node cX [], .node cOne []])).map (·.2) = some (3/32) := by decide +kernel
 end Sound
+
+/-! ### no duplicates (item 5): heap search / bucket search without a filter -/
+section Nodup
+open PS.HS
+variable {S T π : Type} [DecidableEq S] [DecidableEq T]
+
+/-- the invariant `HS.NInv s` (any tree-traversing grammar, any priority type): for every `nt`
+    the programs of `heaps[nt]` are pairwise distinct and belong to `hash_table_program[nt]`;
+    every value of `succ[nt]` (= every program popped for `nt`) belongs to `hash_table_program[nt]`
+    and is NOT in `heaps[nt]` any more; `succ[nt]` is injective; `deleted = ∅`.
+    `query` keeps it, only adds entries to the `succ` tables (`Stable`) and returns the entry
+    `succ[nt][program]` of the new state: a program enters `heaps[nt]` at most once (the push is
+    guarded by `hash_table_program`), so what is popped for `nt` is pairwise distinct. -/
+theorem C02_HS_query_nodup (E : Env S T π) (n : Nat) (s s' : St S T π) (nt : NT S T) (p r : Option Prog)
+    (hs : NInv s) (h : query E n s nt p = some (s', r)) :
+    NInv s' ∧ Stable s s' ∧ ∀ q, r = some q → AList.lookup p (s'.succOf nt) = some q :=
+  query_nodup E hs h
+
+/-- one `next(generator)`: the yielded sequence stays the chain of `succ[start]` from the sentinel -/
+theorem C02_HS_nodup_step (E : Env S T π) (hf : ∀ p, E.filter p = true) (fuel : Nat) (g g' : Gen S T π)
+    (out : List Prog) (r : Option Prog) (hg : NGInv E g out) (h : HS.next E fuel g = some (g', r)) :
+    (∀ p, r = some p → NGInv E g' (out ++ [p])) ∧ (r = none → NGInv E g' out) :=
+  next_nodup E hf fuel g g' out r hg h
+
+/-- **no duplicates**: without a filter (`filter.accept` always true — the enumerators of C02; with a
+    filter see C12) the sequence yielded by heap search / bucket search has no repeated program.
+    Any tree-traversing grammar, any priority type, threshold, fuel and number of steps. -/
+theorem C02_HS_nodup (E : Env S T π) (hf : ∀ p, E.filter p = true) (fuel k : Nat) (g' : Gen S T π)
+    (out : List Prog) (b : Bool) (h : take E fuel k (Gen.new E.G) [] = some (g', out, b)) : out.Nodup :=
+  (take_ngInv E hf fuel k _ _ _ _ _ (ngInv_new E) h).nodup
+
+example : ∀ g' out b, take cE 50 10 (Gen.new cG) [] = some (g', out, b) → out.Nodup :=
+  fun g' out b h => C02_HS_nodup cE (fun _ => rfl) 50 10 g' out b h
+/-- also on the state-threading TTCFG of finding C02-F3 (which loses programs but repeats none) -/
+example : ∀ g' out b, take E3 200 40 (Gen.new w3G) [] = some (g', out, b) → out.Nodup :=
+  fun g' out b h => C02_HS_nodup E3 (fun _ => rfl) 200 40 g' out b h
+end Nodup
 
 end PS.C02HS
